@@ -6,6 +6,8 @@ FIX_COMMITS = [
     "3437b65b Tetrahedron(order=5) degree-4 table replaced",
     "3ca9c68c NeoHooke.gradient stale out buffer when mu is None",
     "56fde0e6 Form API sym=True on off-diagonal blocks of mixed fields",
+    "4835bdf0 blatz_ko missing factor 1/2",
+    "35edf887 van_der_waals non-isochoric I2",
 ]
 CHECKS = {
     "C01": {
@@ -58,6 +60,20 @@ CHECKS = {
                 "every deformation (Piola identity), mass matrix symmetric / = sum rho h h dV / total mass / PSD via the solver-checked sum-of-squares form, self-equilibrated MPC and contact forces: "
                 "all as SMT obligations over symbolic field values, loads and an abstract material on tiny distorted meshes.",
         "note": "tolerance 1e-10 relative (float basis arrays: partition of unity of gradients holds to 1e-16); bounded to the listed meshes.",
+    },
+    "C11": {
+        "text": "Objectivity P(QF) = Q P(F) and isotropy P(F Q^T) = P(F) Q^T with symbolic F, parameters and a symbolic rotation Q(t) about each coordinate axis (t = tan(angle/2), rational parametrisation; general "
+                "rotations follow by composition), symmetry of P F^T, stress-free reference and major symmetry of A for the hand-coded Neo-Hookean family; the same for felupe's tensortrax Hyperelastic wrapper "
+                "with an abstract W(C) (all models behind it, anisotropic ones included), the total/updated Lagrange wrappers, Ogden-Roxburgh around an abstract base; isotropy of the energy and "
+                "dW/dC(I) = 0 for the traceable tensortrax models with symbolic parameters.",
+        "note": "jax models only through C12 (energy equivalence); eigenvalue-based / micro-sphere / morph models outside; isotropy of four isochoric models undecided within budget (listed in evidence).",
+    },
+    "C12": {
+        "text": "Energy equivalence of every traceable jax model with its tensortrax namesake (real jax source re-bound to NumPy primitives, symbolic C and parameters), hand-coded NeoHooke vs tensortrax neo_hooke "
+                "(perfect-power root atoms linked), LinearElastic vs tensor notation vs the small-strain framework, plane strain / plane stress vs the constrained 3-D law (stress and tangent), orthotropic linear "
+                "elasticity vs the orthotropic SVK tangent at I through the real lame_converter_orthotropic, and the documented initial moduli of 14 models (tangent at F = I equals the isotropic tangent with "
+                "the docstring's mu0, K0) - all as SMT obligations with symbolic parameters.",
+        "note": "jax AD trusted; van der Waals modulus within 2e-2 (documented 1e-4 regularisation) and for a = 0; eigenvalue-based pairs outside.",
     },
 }
 NOT_APPLICABLE = {}
